@@ -17,6 +17,9 @@
 //!      is Pending the executor releases one parked lookup chosen by the seeded generator
 //!   C  multi-threaded tokio runtime; a delayed lookup sleeps 30*k microseconds
 //! Every run uses a fresh Symbolizer; every HashMap built during a run gets a fresh RandomState.
+//! `U <addr,addr,..> <base:size:name hex;..>`: model correspondence for the per-frame map of overlapping unloaded modules
+//!   (thread i has its instruction pointer at addr i and no loaded module: frames[0].unloaded_modules of print_json and the
+//!   `(unloaded name@0x..|0x..)` groups of the text report's frame 0 line).
 //! `E <certs> <modules>`: model correspondence for the evil-json certificate fold (cert_subject per module).
 //! A line `R <hex limits stream>` is the model correspondence case (names of the proc_limits array).
 //! `L <hex lsb> <hex status> <hex cpuinfo>`: model correspondence for the Linux key/value streams (lsb_release
@@ -290,15 +293,71 @@ fn run_limits_names(h: &str) -> String {
     format!("R {}", names.join(","))
 }
 
+/// U <addr,addr,..> <base:size:name hex;..>: amd64 dump without loaded modules, the listed unloaded modules, thread i with rip =
+/// addr i.  Answer: per thread the entries of frames[0].unloaded_modules as print_json emits them (name hex @ offsets, decimal),
+/// then the same read off the `(unloaded name@0x..|0x..)` groups of the frame-0 line of the text report.
+fn run_unloaded(addrs: &str, mods: &str) -> String {
+    let mut spec = Spec { cpu: "amd64".into(), os: "win".into(), ..Default::default() };
+    for e in mods.split(';').filter(|x| !x.is_empty() && *x != "-") {
+        let f: Vec<&str> = e.split(':').collect();
+        spec.unloaded.push(ModSpec { base: num(f[0]), size: num(f[1]) as u32, name: lossy(&unhex(f[2])), sym: None, debug: None });
+    }
+    let addrs: Vec<u64> = addrs.split(',').map(num).collect();
+    for (i, a) in addrs.iter().enumerate() {
+        let sb = 0x10000 + 0x1000 * i as u64;
+        spec.threads.push(ThreadSpec { id: i as u32 + 1, stack_base: sb, stack: vec![0; 64], regs: Some(vec![("rip".into(), *a), ("rsp".into(), sb)]) });
+    }
+    let dump = Minidump::read(build_dump(&spec)).expect("read");
+    let rend = exec_a(process_and_render(&dump, string_symbol_supplier(HashMap::new()), 0, None));
+    let v: serde_json::Value = serde_json::from_slice(&rend.json).expect("json");
+    let mut js = Vec::new();
+    for t in v["threads"].as_array().expect("threads") {
+        let um = &t["frames"][0]["unloaded_modules"];
+        let ents: Vec<String> = um
+            .as_array()
+            .map(|a| {
+                a.iter()
+                    .map(|e| {
+                        let offs: Vec<String> = e["offsets"].as_array().expect("offsets").iter().map(|o| u64::from_str_radix(o.as_str().expect("hex").trim_start_matches("0x"), 16).expect("hex").to_string()).collect();
+                        format!("{}@{}", hex(e["module"].as_str().expect("module").as_bytes()), offs.join("|"))
+                    })
+                    .collect()
+            })
+            .unwrap_or_default();
+        js.push(if ents.is_empty() { "-".to_string() } else { ents.join(",") });
+    }
+    let text = String::from_utf8_lossy(&rend.text).into_owned();
+    let mut tx = Vec::new();
+    for l in text.lines().filter(|l| l.starts_with(" 0  ")) {
+        let mut ents = Vec::new();
+        let mut rest = l;
+        while let Some(p) = rest.find(" (unloaded ") {
+            rest = &rest[p + " (unloaded ".len()..];
+            let close = rest.find(')').expect("close");
+            let (name, offs) = rest[..close].rsplit_once('@').expect("@");
+            let offs: Vec<String> = offs.split('|').map(|o| u64::from_str_radix(o.trim_start_matches("0x"), 16).expect("hex").to_string()).collect();
+            ents.push(format!("{}@{}", hex(name.as_bytes()), offs.join("|")));
+            rest = &rest[close..];
+        }
+        tx.push(if ents.is_empty() { "-".to_string() } else { ents.join(",") });
+    }
+    // print() lists the requesting / crashing thread first only when there is one: none here, so text order = thread order
+    format!("U {} T {}", js.join(";"), tx.join(";"))
+}
+
 /// E c1:m1+m2,c2:m1 m1,m2,m3 : evil-json ModuleSignatureInfo {c1:[m1.dll,m2.dll],c2:[m1.dll]} and a dump
 /// with modules C:\x\m1.dll ...; answer: cert_subject of each module as print_json reports it
 fn run_certs(spec_s: &str, mods: &str) -> String {
-    let mut obj = serde_json::Map::new();
-    for e in spec_s.split(',') {
-        let (c, ms) = e.split_once(':').expect("cert:mods");
-        obj.insert(c.to_string(), serde_json::Value::Array(ms.split('+').map(|m| serde_json::Value::String(format!("{}.dll", m))).collect()));
-    }
-    let inner = serde_json::to_string(&serde_json::Value::Object(obj)).unwrap();
+    // the inner object is written by hand, member by member in the order of the case, so that a certificate name can occur
+    // twice (serde's HashMap visitor then keeps the LAST member of that name: C13/Unloaded.hm_of_members)
+    let members: Vec<String> = spec_s
+        .split(',')
+        .map(|e| {
+            let (c, ms) = e.split_once(':').expect("cert:mods");
+            format!("{}:{}", serde_json::Value::String(c.to_string()), serde_json::Value::Array(ms.split('+').map(|m| serde_json::Value::String(format!("{}.dll", m))).collect()))
+        })
+        .collect();
+    let inner = format!("{{{}}}", members.join(","));
     let evil = serde_json::json!({ "ModuleSignatureInfo": inner }).to_string();
     let mut f = tempfile::NamedTempFile::new().expect("tmp");
     std::io::Write::write_all(&mut f, evil.as_bytes()).unwrap();
@@ -596,6 +655,10 @@ fn run(line: &str) -> String {
     if let Some(rest) = line.strip_prefix("L ") {
         let mut it = rest.split_ascii_whitespace();
         return run_linux(it.next().expect("lsb"), it.next().expect("status"), it.next().expect("cpuinfo"));
+    }
+    if let Some(rest) = line.strip_prefix("U ") {
+        let mut it = rest.split_ascii_whitespace();
+        return run_unloaded(it.next().expect("addrs"), it.next().unwrap_or("-"));
     }
     if let Some(rest) = line.strip_prefix("E ") {
         let mut it = rest.split_ascii_whitespace();
